@@ -259,10 +259,14 @@ def observation(events, before, after):
     return obs, detail
 
 
+def clip(t):
+    return t if len(t) <= 28 else "%s..(%d chars)" % (t[:24], len(t))
+
+
 def describe(case):
     a, f = case["arch"], case["fault"]
-    s = "props [%s] entries [%s]" % (", ".join("%s=%s" % (k, v) for k, v in a["props"]),
-                                     ", ".join("%s:%d" % (e["name"], e["size"]) for e in a["entries"]))
+    s = "props [%s] entries [%s]" % (", ".join("%s=%s" % (clip(k), clip(v)) for k, v in a["props"]),
+                                     ", ".join("%s:%d" % (clip(e["name"]), e["size"]) for e in a["entries"]))
     total = case.get("layout", {}).get("total")
     if f["kind"] == "truncate":
         s += " fault Truncate(%d)%s" % (f["n"], " of %d bytes" % total if total else "")
@@ -273,6 +277,10 @@ def describe(case):
     else:
         s += " no fault"
     return s
+
+
+def short(h):
+    return (h or "(empty)") if len(h) <= 40 else "%s..(%d bytes)" % (h[:40], len(h) // 2)
 
 
 def observed_text(why, line, detail):
@@ -287,18 +295,18 @@ def observed_text(why, line, detail):
         if not o["good"]:
             parts.append("archive not accepted")
         if o["props"] != line["arch"]["props"]:
-            parts.append("props reported %s" % json.dumps(o["props"]))
+            parts.append("props reported %s" % json.dumps(o["props"])[:300])
         if o["entries"] != [{"name": e["name"], "size": e["size"]} for e in ents]:
-            parts.append("entries reported %s" % json.dumps(o["entries"]))
+            parts.append("entries reported %s" % json.dumps(o["entries"])[:300])
     for path in ("direct", "vfs"):
         for j, g in enumerate(o[path]):
             if j >= len(ents):
                 break
             want = ents[j]["blob"]
             if why == "Faithful" and (g["st"] != "ok" or g["hex"] != want):
-                parts.append("%s %s: %s%s, packed %s" % (path, g["name"], g["st"], (" " + g["hex"]) if g["st"] == "ok" else "", want or "(empty)"))
+                parts.append("%s %s: %s%s, packed %s" % (path, g["name"], g["st"], (" " + short(g["hex"])) if g["st"] == "ok" else "", short(want)))
             if why == "OnlyIntactExposed" and g["st"] == "ok":
-                parts.append("%s %s returned %s (packed %s)" % (path, g["name"], g["hex"] or "(empty)", want or "(empty)"))
+                parts.append("%s %s returned %s (packed %s)" % (path, g["name"], short(g["hex"]), short(want)))
     if detail and detail.get("codes"):
         parts.append("loadFile diagnostics %s" % json.dumps(detail["codes"]))
     return "; ".join(parts[:8])
@@ -452,7 +460,7 @@ def run(rep, tier, seed, replay):
                                 "observed": {"good": o["good"], "crash": o["crash"], "direct": [[g["name"], g["st"], g["hex"][:24]] for g in o["direct"]],
                                              "vfs": [[g["name"], g["st"], g["hex"][:24]] for g in o["vfs"]]}})
         with open(os.path.join(wdir, "c17.bad.json"), "w") as f:
-            json.dump([{"bad": b, "case": cmap[b["id"]], "line": lines[b["id"]]} for b in bad[:2000]], f)
+            json.dump([{"bad": b, "case": cmap[b["id"]], "line": lines[b["id"]]} for b in bad[:200]], f)
         groups = {}
         for b in bad:
             if b["why"].startswith("MACHINERY"):
